@@ -397,6 +397,9 @@ def main(argv=None):
         print('  violated: %s -- %s' % (sig, (rec.get('shrunk_detail') or rec['detail'])[:300]))
         print('VIOLATION property=%s replay=%s' % (prop_id, path))
     if viol_lines:
+        if harness_errors:
+            sys.stderr.write('note: %d harness error(s) also occurred:\n%s\n'
+                             % (len(harness_errors), harness_errors[0][-800:]))
         return 1
     if harness_errors:
         for h in harness_errors[:3]:
